@@ -317,6 +317,9 @@ class MethodNotAllowed(BadRequest):
             self.detail = '%s Allowed methods: %r' % (self.detail,
                                                       method_list)
         super(MethodNotAllowed, self).__init__(*args, **kwargs)
+        if self.allowed_methods:
+            # required for 405 responses, see RFC 7231 6.5.5
+            self.headers['Allow'] = ', '.join(sorted(self.allowed_methods))
 
 
 class NotAcceptable(BadRequest):
